@@ -241,10 +241,13 @@ theorem Gen_bb_size_estimate_overflow (b : BlockBuilder)
 
 /-! ### finish -/
 
-theorem Gen_bb_finish_tie (b : BlockBuilder) (fuel : Nat) (hf : b.restarts.length < fuel) :
+theorem Gen_bb_finish_tie (b : BlockBuilder) (fuel : Nat) (hf : b.restarts.length < fuel)
+    (hcap : b.restarts.length * 4 + 4 < 2 ^ 64) :
     Gen.bb_finish fuel b = .ok ({ b with buffer := b.finish }, b.finish) := by
   unfold Gen.bb_finish
-  simp only []
+  have hc1 : b.restarts.length * 4 < 18446744073709551616 := by omega
+  have hc2 : b.restarts.length * 4 + 4 < 18446744073709551616 := by omega
+  simp only [mulW_ok hc1, addW_ok hc2, bind_ok]
   rw [finish_loop b.restarts _ ?hc ?hb fuel 0 _ (Nat.zero_le _) (by omega)]
   case hc =>
     intro j s h
@@ -255,10 +258,13 @@ theorem Gen_bb_finish_tie (b : BlockBuilder) (fuel : Nat) (hf : b.restarts.lengt
   simp only [bind_ok, Res.pure_eq, List.drop_zero, encodeFixed32_mod, BlockBuilder.finish]
 
 /-- the fuel bound of `Gen_bb_finish_tie` is sharp -/
-theorem Gen_bb_finish_fuel_short (b : BlockBuilder) (fuel : Nat) (hf : fuel ≤ b.restarts.length) :
+theorem Gen_bb_finish_fuel_short (b : BlockBuilder) (fuel : Nat) (hf : fuel ≤ b.restarts.length)
+    (hcap : b.restarts.length * 4 + 4 < 2 ^ 64) :
     Gen.bb_finish fuel b = .diverge := by
   unfold Gen.bb_finish
-  simp only []
+  have hc1 : b.restarts.length * 4 < 18446744073709551616 := by omega
+  have hc2 : b.restarts.length * 4 + 4 < 18446744073709551616 := by omega
+  simp only [mulW_ok hc1, addW_ok hc2, bind_ok]
   rw [finish_loop_diverge b.restarts _ ?hc fuel 0 _ (by omega)]
   case hc =>
     intro j s h
